@@ -68,6 +68,9 @@ def main(ctx):
         ('two', dict(Chans='{1, 2}', InitWin=2, PktSize=2, MaxUnits=3,
                      MaxWrite=2, MaxPause=1), n, 36, 1),
         ('w3p2x1k', {}, n // 2, 30, 1024),
+        ('w3p2text', {}, n // 2, 30, 'text'),
+        ('w1p1text', dict(InitWin=1, PktSize=1, MaxUnits=3, DTs='{0}'), n // 2,
+         30, 'text'),
     ]
     cc.replay_all(ctx, 'C08', 'c08', sims, ctx.seed + 11)
 
